@@ -230,6 +230,13 @@ for _name, _d, _t in (('read_by_type_handler', ['MTU_MAX=48', 'N_MAX=12'], ['MTU
   UNITS.append(dict(name=_name, extracts=H_EX, code=H_CODE, object_bits=10, defines=_d, thorough_defines=_t, timeout=900, replay=dict(src='replay/c02_replay.cpp', cxxflags=['-DNDEBUG']),
          enforce=['handle_read_by_type_request_'],
          replace=['ACCESS', 'handle_by_index', 'first_index_by_handle', 'filter_call', 'last_handle_index', 'ca_call', 'check_size_and_handle_range_', 'error_response5_', 'error_response4_']))
+# Find Information (C02fi.py) and primary service discovery restricted to a handle range (C03.py: constructors of the two functors fix the range, each< Service >() applies it)
+import importlib.util as _ilu
+def _load(name):
+    sp = _ilu.spec_from_file_location(name, os.path.join(os.path.dirname(__file__), name + '.py'))
+    m = _ilu.module_from_spec(sp); sp.loader.exec_module(m); return m
+UNITS += _load('C02fi').UNITS
+UNITS += [dict(u) for u in _load('C03').UNITS if u['name'] in ('range', 'services_by_group', 'read_by_group_type')]
 META = dict(
     level='proof',
     explanation="Read By Type, real bodies: all_attributes (loop contract), last_handle_index, check_size_and_handle_range<A,B>, "
@@ -239,10 +246,12 @@ META = dict(
                 "with a ghost index, completeness), in ascending order; collect_attributes appends (handle, value) tuples only inside the response "
                 "buffer, each value read once through the attribute's access function with the connection's security attributes, all tuples of "
                 "one size, the first tuple decides; the handler answers Invalid PDU / Invalid Handle / Attribute Not Found (only when nothing was "
-                "collected) or 09 <len> tuples with length = 2 + collected octets <= room.",
-    assumptions=["Find Information (collect_handle_uuid_tuples) and Read By Group Type / Find By Type Value (collect_primary_services, "
-                 "services_by_group: folds over the service type list) are NOT under contract: the statement is decided for Read By Type only; the "
-                 "suspected defect F-C02b of DESIGN.md 9 (Read By Group Type compares a handle with an index) is not confirmed by this check",
+                "collected) or 09 <len> tuples with length = 2 + collected octets <= room. Find Information and the range tests of the two primary service discovery procedures: see assumptions.",
+    assumptions=["Find Information: collect_handle_uuid_tuples (loop contract) and handle_find_information_request are under contract in unit find_information (a tuple is only "
+                 "written for an attribute whose handle lies in start..end, carries that handle, and has the UUID size announced in the format octet; Attribute Not Found only when "
+                 "no attribute lies in the range); completeness and ascending order are not stated there. Read By Group Type / Find By Type Value: the constructors of "
+                 "collect_primary_services / services_by_group and their each< Service >() are under contract (units range, read_by_group_type, services_by_group of C03.py: the range "
+                 "test holds exactly for services whose declaration handle lies in start..end); the fold over the service type list itself is type level",
                  "'eventually enumerates every matching attribute exactly once' follows from the per-request contract (first returned handle = "
                  "least matching handle >= start; ascending) by induction over the requests: paper step",
                  "Attribute Not Found is also returned when matching attributes exist but none could be read or fit (the library skips unreadable "
